@@ -15,6 +15,7 @@ LEVEL_TEXT = (
     "it is dropped or replaced and when its load fails"
     "; legacy @service registrations made by a decorator set that then fails are rolled back; State.notify_del releases every entity for every name order; GlobalContext.stop always switches auto-start off; the manager of a function whose variable died is stopped or, if not started yet, never started; a refused @service name never releases another context's registration"
     "; a manager stopped during its start starts nothing further; the stop of a dead function's manager begins inside the finaliser; an EvalFunc has one trigger-stopping holder; a manager is recorded in its context before its start; subscription sets are owned copies"
+    '; the shutdown occurrence is produced by the removal path only (who-may-call TrigInfo.stop); subscriptions of every name form are released'
 )
 LEVEL_NOTE = "when the last reference to a function dies is decided by the host GC and is out of scope; acquire/release kinds are recognised by the repo's own API names (table in the checker)"
 TECHNIQUE = "acquire/release kind tables per owner class (sibling agreement), loop early-exit rule, handle def-use, closure free-variable check, ordered must-pass events in load_file/delete"
